@@ -4,6 +4,7 @@ package main
 // passified form: named values, guarded assumptions and obligations.
 
 import (
+	"os"
 	"fmt"
 	"go/constant"
 	"go/token"
@@ -37,6 +38,7 @@ type Frame struct {
 	locs         map[ssa.Value]*Loc
 	closures     map[ssa.Value]*closureInfo
 	allocsByName map[string][]*ssa.Alloc
+	curRangeIdx  *ssa.Alloc // hidden index of the loop whose invariants are being evaluated
 	cellAlloc    map[*ssa.Alloc]bool
 	params       []Term
 	entry        *State
@@ -360,12 +362,18 @@ func (fr *Frame) run(st0 *State, pc0 Term) {
 				}
 			}
 			if len(preds) == 0 {
+				if os.Getenv("GOVC_DEBUG") != "" {
+					fmt.Fprintf(os.Stderr, "debug: %s block %d (%s) has no processed predecessor\n", fn.Name(), b.Index, b.Comment)
+				}
 				continue // unreachable
 			}
 			pc = vc.def(fmt.Sprintf("pc:f%d:b%d", fr.id, b.Index), or(conds...))
 			st = vc.mergeStates(preds, conds, fmt.Sprintf("f%d:b%d", fr.id, b.Index))
 		}
 		fr.pcs[b] = pc
+		if os.Getenv("GOVC_DEBUG") != "" && pc.S == "false" {
+			fmt.Fprintf(os.Stderr, "debug: %s block %d (%s) pc=false\n", fn.Name(), b.Index, b.Comment)
+		}
 		if li := fr.loops[b]; li != nil {
 			st = fr.enterLoop(li, st, pc)
 		}
